@@ -1681,6 +1681,66 @@ def eval_setup_paths(ctx, repo, agg):
 
 
 
+def r820_hash_sites(ctx, repo):
+    """the suffix under which compress keeps an old log is the file digest
+    the command log calls "md5-5M": both sites must hash the same number of
+    bytes (blocksize * count, defaults from util.hashfile)"""
+    hf = repo.func(UTIL, "hashfile")
+    params = [a.arg for a in hf.args.args]
+    dflt = dict(zip(params[len(params) - len(hf.args.defaults):],
+                    hf.args.defaults))
+
+    def fold(e):
+        try:
+            return ast.literal_eval(e)
+        except Exception:
+            if isinstance(e, ast.BinOp):
+                a, b = fold(e.left), fold(e.right)
+                if a is None or b is None:
+                    return None
+                if isinstance(e.op, ast.Mult):
+                    return a * b
+                if isinstance(e.op, ast.Pow):
+                    return a ** b
+                if isinstance(e.op, ast.FloorDiv):
+                    return a // b
+                if isinstance(e.op, ast.Add):
+                    return a + b
+            return None
+
+    def nbytes(call):
+        vals = {}
+        for name in ("blocksize", "count"):
+            v = kwarg(call, name, params.index(name))
+            v = v if v is not None else dflt.get(name)
+            vals[name] = fold(v) if v is not None else None
+        if None in vals.values():
+            return None
+        return vals["blocksize"] * vals["count"]     # count 0 = whole file
+    sites = []
+    for rel, q in ((COMPRESS, "compress"), (COMMON, "get_command_log")):
+        f = repo.func(rel, q)
+        cs = [c for c in walk(f) if isinstance(c, ast.Call) and (
+            call_name(c) or "").split(".")[-1] == "hashfile"]
+        if len(cs) != 1:
+            raise AnalysisError(f"{rel}::{q}: expected one hashfile call")
+        n = nbytes(cs[0])
+        if n is None:
+            raise AnalysisError(f"{rel}::{q}: hashfile arguments cannot be "
+                                f"folded")
+        sites.append((q, cs[0], n))
+    ok = sites[0][2] == sites[1][2]
+    ctx.ob("R8.20", ok,
+           f"compress and the command log hash the same {sites[0][2]} bytes "
+           f"of the input" if ok else
+           f"compress names the kept logs after a digest of "
+           f"{sites[0][2]} bytes (`{short(sites[0][1], 60)}`), the command "
+           f"log records the digest of {sites[1][2]} bytes as 'md5-5M': the "
+           f"two identifiers differ for larger inputs", node=sites[0][1],
+           label="log suffix is the md5-5M digest of the command log")
+
+
+
 # ----------------------------------------------------------------------
 # R8.5 defect table identity, R8.8 tdms2rtdc
 
@@ -2147,6 +2207,7 @@ def run(ctx):
     r83_taint(ctx, repo)
     r83_tasks(ctx, repo)
     r85_table(ctx, repo)
+    r820_hash_sites(ctx, repo)
     r88(ctx, repo)
     r89(ctx, repo)
 
@@ -2859,4 +2920,19 @@ MUTANTS = list(MUTANTS) + [
        "    return TaskPaths(paths_in=paths_temp,\n"
        "                     paths_out=paths_out,\n"
        "                     paths_temp=paths_in)\n")], "R8."),
+]
+
+# seed /verif/seeded/C08_17
+MUTANTS = list(MUTANTS) + [
+    ("compress hashes 5,000,000 bytes for the log suffix (seeded)", COMPRESS,
+     ("                    md55m = util.hashfile(path_in, count=80)",
+      "                    md55m = util.hashfile(path_in, blocksize=5000000, "
+      "count=1)"), "R8.20"),
+]
+
+TWINS = list(TWINS) + [
+    ("compress spells out the default block size of hashfile", COMPRESS,
+     ("                    md55m = util.hashfile(path_in, count=80)",
+      "                    md55m = util.hashfile(path_in, blocksize=65536,\n"
+      "                                          count=80)")),
 ]
